@@ -384,3 +384,74 @@ theorem good_set {st : St} {c : ObjId} : ∀ (g : HS) (path : List Bool) (n : HS
       | true => simp only [HS.set]; exact good_bin.mpr ⟨hp, hl, ihr t n hr hn⟩
 
 end MontePyVerif.Links
+
+namespace MontePyVerif.Links
+
+/-! ### links only: members untouched, `_problem` pointers only ever set (unconditional) -/
+
+structure LinkExt (st st' : St) : Prop where
+  members : ∀ k, st'.members k = st.members k
+  linked : ∀ k o, st.linked k o = true → st'.linked k o = true
+
+theorem LinkExt.refl (st : St) : LinkExt st st := ⟨fun _ => rfl, fun _ _ h => h⟩
+
+theorem LinkExt.trans {a b c : St} (h1 : LinkExt a b) (h2 : LinkExt b c) : LinkExt a c :=
+  ⟨fun k => (h2.members k).trans (h1.members k), fun k o h => h2.linked k o (h1.linked k o h)⟩
+
+theorem Ext.linkExt {st st' : St} (e : Ext st st') : LinkExt st st' := ⟨e.members, e.linked⟩
+
+theorem linkExt_updCell (st : St) (c : ObjId) (f : CellSt → CellSt)
+    (hl : (st.cellOf c).link = true → (f (st.cellOf c)).link = true) : LinkExt st (st.updCell c f) := by
+  refine ⟨fun k => by cases k <;> rfl, fun k o h => ?_⟩
+  cases k
+  · simp only [St.linked, updCell_cellOf] at h ⊢
+    split
+    · subst_vars; exact hl h
+    · exact h
+  all_goals exact h
+
+theorem iopTail_linkExt (u0 : Bool) (l : HS) (p : Option ObjId) (other : HS) (st1 : St) (r1 newRight : HS) :
+    LinkExt st1 (iopTail u0 l p other st1 r1 newRight).1.1 := by
+  unfold iopTail
+  cases p with
+  | none => simp only [linkChild]; exact LinkExt.refl st1
+  | some c =>
+    have hl := (linkChild_spec st1 c newRight).1
+    generalize linkChild st1 (some c) newRight = lres at hl ⊢
+    obtain ⟨⟨st2, e2⟩, r2⟩ := lres
+    cases e2 with
+    | some err => exact hl.linkExt
+    | none => exact hl.linkExt.trans (addChildren_spec st2 c other).1.linkExt
+
+theorem iop_linkExt (u : Bool) (other : HS) : ∀ (self : HS) (st : St),
+    LinkExt st (iop u st self other).1.1 := by
+  intro self
+  induction self with
+  | leaf ic d s p => intro st; simp only [iop]; exact LinkExt.refl st
+  | compl l p _ => intro st; simp only [iop]; exact LinkExt.refl st
+  | bin u0 l r p _ ihr =>
+    intro st
+    cases r with
+    | leaf ic d s q =>
+      simp only [iop]
+      cases p with
+      | none => simp only [linkChild]; exact LinkExt.refl st
+      | some c =>
+        have hl := (linkChild_spec st c (.bin u (.leaf ic d s q) other none)).1
+        generalize linkChild st (some c) (.bin u (.leaf ic d s q) other none) = lres at hl ⊢
+        obtain ⟨⟨st2, e2⟩, r2⟩ := lres
+        cases e2 <;> exact hl.linkExt
+    | compl rl rq =>
+      simp only [iop]
+      exact iopTail_linkExt u0 l p other st _ _
+    | bin ru rl rr rq =>
+      rw [iop]
+      case x_4 => intro _ _ _ _ h; cases h
+      have ih := ihr st
+      generalize iop u st (.bin ru rl rr rq) other = res at ih ⊢
+      obtain ⟨⟨st1, e1⟩, r1, ret⟩ := res
+      cases e1 with
+      | some err => exact ih
+      | none => exact ih.trans (iopTail_linkExt u0 l p other st1 r1 (retOr r1 ret))
+
+end MontePyVerif.Links
